@@ -331,10 +331,13 @@ def arrOf : Option V → List Num
   | some (.node _ .array fs) => fs.nums
   | _ => []
 
-/-- `np.any(SkyCoord != SkyCoord)`: non-equivalent frames raise `TypeError`, shapes that do
-not broadcast raise `ValueError`, otherwise exact comparison of longitude and latitude. -/
+/-- `np.any(SkyCoord != SkyCoord)`: extra frame attributes held by the `SkyCoord` itself (e.g. an
+`obstime` on an ICRS position; field `extra`) that are not equivalent raise `ValueError`,
+non-equivalent frames raise `TypeError`, shapes that do not broadcast raise `ValueError`,
+otherwise exact comparison of longitude and latitude. -/
 def neSky (fa fb : Fields) : Except Exc Bool :=
-  if atomOf (fa.get? "frame") ≠ atomOf (fb.get? "frame") then .error .typeError
+  if atomOf (fa.get? "extra") ≠ atomOf (fb.get? "extra") then .error .valueError
+  else if atomOf (fa.get? "frame") ≠ atomOf (fb.get? "frame") then .error .typeError
   else do
     let exact : Num → Num → Bool := fun a b => !(a.ne b)
     let cx ← bcastAll exact (arrOf (fa.get? "lon")) (arrOf (fb.get? "lon"))
@@ -457,7 +460,7 @@ def neV (t : Tol) : V → V → Except Exc Bool
       | _ => .ok true
     | .regions => .ok true
 /-- the `for param in self_params` loop of `Region.__eq__` (the fields of a region node are
-stored in `self_params` order), inside its `try … except TypeError: return False`. -/
+stored in `self_params` order), inside its `try … except (TypeError, ValueError): return False`. -/
 def eqLoop (t : Tol) (keys : List String) : Fields → Fields → Except Exc Bool
   | .nil, _ => .ok true
   | .cons key va rest, fb =>
@@ -472,6 +475,7 @@ def eqLoop (t : Tol) (keys : List String) : Fields → Fields → Except Exc Boo
           | .ok true => .ok false
           | .ok false => eqLoop t keys rest fb
           | .error .typeError => .ok false
+          | .error .valueError => .ok false
           | .error e => .error e
     else eqLoop t keys rest fb
 end
